@@ -344,7 +344,7 @@ var _ *pb.SharedGroupProposal
 
 // the registry of consumers is keyed by the consumer's own name (snapshot() stores a consumer's state under proxy.name and
 // processSnapshot() looks the consumer up by that key)
-//@ spec namedProxies(sg *sharedGroup) bool = sg.proxies != nil && forall n string :: has(sg.proxies, n) ==> sg.proxies[n] != nil && sg.proxies[n].name == n
+//@ spec namedProxies(sg *sharedGroup) bool = sg.proxies != nil && forall n string :: has(sg.proxies, n) ==> sg.proxies[n] != nil && allocated(sg.proxies[n]) && sg.proxies[n].name == n
 //@ func (*storage/raft.sharedGroup).Get
 //@ props C14
 //@ requires [registry] namedProxies(this)
